@@ -295,6 +295,40 @@ func c30Gen(r *rand.Rand, n int, tier string, emit func(...string)) {
 	emit("10", "1000", ";", "T", "4", "1", "1", ";", "T", "8", "4294967295", "0", ";", "P", "12")
 	emit("10", "1000", ";", "T", "4", "1", "1", ";", "T", "8", "0", "18446744073709551615", ";", "P", "12")
 	for c := 3; c < n; c++ {
+		if r.Intn(7) == 0 {
+			// several callers blocked behind a full semaphore, then one release that fits some or all
+			k := 2 + r.Intn(3)
+			capM := dag.Metric{Num: idx.Event(k), Size: uint64(10 * k)}
+			toks := mtok(capM)
+			toks = append(toks, ";", "T", "4")
+			toks = append(toks, mtok(capM)...)
+			t := int64(4)
+			for j := 1; j <= k; j++ {
+				t += 4
+				w := dag.Metric{Num: 1, Size: uint64(1 + r.Intn(10))}
+				if r.Intn(4) == 0 {
+					w.Num = 2
+				}
+				toks = append(toks, ";", "A", strconv.FormatInt(t, 10), strconv.Itoa(j))
+				toks = append(toks, mtok(w)...)
+				toks = append(toks, strconv.FormatInt(int64(4*(6+r.Intn(4))+2), 10))
+			}
+			t += 4
+			rel := capM
+			if r.Intn(2) == 0 {
+				rel = dag.Metric{Num: idx.Event(1 + r.Intn(k)), Size: uint64(10 * (1 + r.Intn(k)))}
+			}
+			toks = append(toks, ";", "R", strconv.FormatInt(t, 10))
+			toks = append(toks, mtok(rel)...)
+			if r.Intn(3) == 0 {
+				t += 4
+				toks = append(toks, ";", "X", strconv.FormatInt(t, 10))
+			}
+			toks = append(toks, ";", "P", strconv.FormatInt(t+4, 10))
+			vu.Stat("family_multi_waiter")
+			emit(toks...)
+			continue
+		}
 		capM := dag.Metric{Num: idx.Event(1 + r.Intn(4)), Size: uint64(10 * (1 + r.Intn(4)))}
 		if r.Intn(10) == 0 {
 			capM.Num = ^idx.Event(0) - idx.Event(r.Intn(2))
